@@ -5,6 +5,7 @@ import (
 	"encoding/json"
 	"fmt"
 	"os"
+	"sort"
 	"sync"
 
 	"github.com/tidwall/geojson"
@@ -103,6 +104,14 @@ func taskBody(x *caller, id int, ops []Op, skip []bool, results []*OpResult, hp 
 func soloPass(s *Spec, pool []geojson.Object, opBudget int64) (results [][]*OpResult, steps int64, hps []harnessPanic) {
 	results = newTaskResults(s.Tasks)
 	var mu sync.Mutex
+	// operations already seen not to terminate normally in this pass: an
+	// identical one is marked without being executed again (a workload may
+	// repeat one operation thousands of times)
+	abnormal := map[string]int{}
+	opKey := func(op *Op) string {
+		b, _ := json.Marshal(op)
+		return string(b)
+	}
 	for t := range s.Tasks {
 		done := make(chan struct{})
 		go func(t int) {
@@ -110,6 +119,12 @@ func soloPass(s *Spec, pool []geojson.Object, opBudget int64) (results [][]*OpRe
 			verifsim.SetMode(verifsim.ModeSolo, opBudget)
 			x := &caller{pool: pool, task: t, sim: false}
 			for i := range s.Tasks[t] {
+				if len(abnormal) > 0 {
+					if st, ok := abnormal[opKey(&s.Tasks[t][i])]; ok {
+						results[t][i].Status = st
+						continue
+					}
+				}
 				goexit := true
 				func() {
 					defer func() {
@@ -130,6 +145,9 @@ func soloPass(s *Spec, pool []geojson.Object, opBudget int64) (results [][]*OpRe
 					goexit = false
 				}()
 				_ = goexit
+				if st := results[t][i].Status; st == StPanic || st == StAborted {
+					abnormal[opKey(&s.Tasks[t][i])] = st
+				}
 			}
 			steps += verifsim.Steps()
 			verifsim.SetMode(verifsim.ModeOff, 0)
@@ -285,9 +303,19 @@ func overlapStats(s *Spec, kinds [][]string, sim [][]*OpResult, st *RunStat) {
 			ivs = append(ivs, iv{t: t, i: i, s: res.Start, e: res.End, r: r, a: a, m: op.M, kind: kinds[t][i]})
 		}
 	}
+	sort.Slice(ivs, func(i, j int) bool {
+		if ivs[i].s != ivs[j].s {
+			return ivs[i].s < ivs[j].s
+		}
+		if ivs[i].t != ivs[j].t {
+			return ivs[i].t < ivs[j].t
+		}
+		return ivs[i].i < ivs[j].i
+	})
 	for x := 0; x < len(ivs); x++ {
-		for y := x + 1; y < len(ivs); y++ {
-			p, q := ivs[x], ivs[y]
+		p := ivs[x]
+		for y := x + 1; y < len(ivs) && ivs[y].s < p.e; y++ {
+			q := ivs[y]
 			if p.t == q.t {
 				continue
 			}
